@@ -65,7 +65,7 @@ CHECKS = {
          'C02_count/tuples_mem: without & one selector per parent, with k ampersands one per k-tuple of parents (all of them). C02_amp: every & is '
          'replaced textually, in order, by the tuple member; C02_desc/C02_comb: descendant space by default, dropped before a written combinator. '
          'Tie: the model (list order included) equals the real output on a 3x42x3 placement catalogue under two layouts and on random trees to depth 7; '
-         'an independent string-level oracle checks the property itself (selector set, rule order, declarations). Cross-model theorems (Props/Cross*.lean, 18 audited): the models of variables, media and mixins are conservative extensions of this one on sheets without their own constructs; the at-rule model agrees with the media model and its printer with the formatter model; the guard test and the call arithmetic of the mixin model are those of the guard and expression models.'),
+         'an independent string-level oracle checks the property itself (selector set, rule order, declarations). Cross-model theorems (Props/Cross*.lean, 19 audited): the models of variables, media and mixins are conservative extensions of this one on sheets without their own constructs; the at-rule model agrees with the media model and its printer with the formatter model; the guard test and the call arithmetic of the mixin model are those of the guard and expression models.'),
    note=BASE_NOTE + ' Open known finding C02-star-amp. Fragment boundaries (element after &-suffix, * in the middle) are syntax errors of the front end and are not generated.'),
  'C03': dict(category='proof',
    technique='Lean 4: two-pass frame-stack model with lazy substitution, theorem model = lexical hoisted semantics under a decidable side condition; differential correspondence',
@@ -110,7 +110,7 @@ CHECKS = {
          'parameters, argument shapes) each shown necessary by a kernel-checked counterexample. Tie: model = real output on random programs '
          '(arity 0-3, defaults, , and ; separators, nested rules, &, calls in bodies, calls before definitions, rules as mixins, recursion '
          'depth up to 63 in thorough) and both = an independent textual inliner.'),
-   note=BASE_NOTE + ' @media in mixin bodies is checked by C07 (oracle); which callee variables the caller sees is outside the property. Multi-token arguments containing variables and defaults referring to earlier parameters are excluded by hypothesis in C05_inline (they are exercised by the correspondence only as far as the generator produces them: not at all).'),
+   note=BASE_NOTE + ' @media in mixin bodies is checked by C07 (oracle) and by the inline-equivalence family of this check (call vs body written in place: shadowing arguments, parameters in media queries, calls inside @media blocks of rules); which callee variables the caller sees is outside the property. Multi-token arguments containing variables and defaults referring to earlier parameters are excluded by hypothesis in C05_inline (they are exercised by the correspondence only as far as the generator produces them: not at all).'),
  'C18': dict(category='proof',
    technique='Lean 4: model of string scanning (plain and interpolated) and of interpolation, theorems by induction over the body; differential correspondence with hostile bodies',
    text=('C18_scan_plain/C18_scan_empty: for EVERY body without the delimiter and @ (braces, semicolons, comment markers, repeated spaces, '
@@ -159,7 +159,9 @@ CHECKS = {
          'to the same colour (C08_fmt), tokens are printed verbatim under every option vector (C11_erase, C11_layout). Tie/oracle: all ordered '
          'pairs of 8 compound kinds x 4 combinators, all ordered pairs of 8 value kinds (incl. words drawn from the lexer\'s own element and property tables) x 3 separators, !important spellings, 9 media query '
          'shapes and random sheets under random option vectors: canonicalised source = canonicalised output (colours after normalisation); '
-         'catalogue selectors through Lessm.Sel.identParse = real output.'),
+         'catalogue selectors through Lessm.Sel.identParse = real output. The selector printer Identifier.fmt is modelled at character level '
+         '(Model/IdentFmt.lean; C01_fmt_*: only the three combinator marks are decoded, quoted pieces are printed as written, otherwise the old blank '
+         'collapse) and tied in-process to the real method on random token lists.'),
    note=BASE_NOTE + ' Open known findings C01-star-joined, C01-reserved-words; spaces after a string token or a closing parenthesis are dropped by the lexer filter (same CSS token sequence) and are canonicalised away.'),
  'C10': dict(category='proof',
    technique='Lean 4: fixed-point theorem on the nesting model (embed output, compile again) for all well-formed nested sources, printer cleanliness theorems; fixed-point oracle on the real compiler over all generators and the corpus',
